@@ -2,7 +2,8 @@
 
 Decided: renew-or-add structure, the no-backdating guard and its call sites,
 hashed lease secrets on the newest container schemas, agreement of the lease
-struct formats with their pack/unpack sites, and hashing of candidate secrets.
+struct formats with their pack/unpack sites, hashing of candidate secrets, the lease
+slot layout, renewal independent of available space, and slot-numbered lease enumeration.
 DESIGN.md section 5, C25.  (Lease isolation from data writes is C23.2/C23.6.)"""
 from sa.h import *
 
@@ -27,8 +28,17 @@ EXPLANATION = (
     "expiration time; (6) lease slot layout: MutableShareFile._read_lease_record/_write_lease_record compute identical "
     "slot offsets under identical conditions (N < 4: HEADER_SIZE + N*LEASE_SIZE; else extra_lease_offset + 4 + "
     "(N-4)*LEASE_SIZE), the extra-lease count is incremented exactly when a record is appended, ShareFile writes lease N "
-    "at _lease_offset + N*LEASE_SIZE, reads sequentially from there and appends at index num_leases with count+1.  "
-    "Undecided: hash strength, clock values, byte-level file effects.")
+    "at _lease_offset + N*LEASE_SIZE, reads sequentially from there and appends at index num_leases with count+1; "
+    "(7) a renewal needs no space: add_or_renew_lease (both containers) reaches the renew attempt on every path - no return, "
+    "raise (NoSpace) or space-dependent precondition before it; StorageServer._add_or_renew_leases offers every share to "
+    "add_or_renew_lease, and add_lease / allocate_buckets / slot_testv_and_readv_and_writev skip it only under renew_leases=False, "
+    "failed test vectors or an empty share collection; (8) the number handed out with a lease is the slot it lives in: "
+    "MutableShareFile._enumerate_leases pairs each lease with the very slot argument of the _read_lease_record call that produced it "
+    "(not a position among the live leases), visits range(_get_num_lease_slots(f)) and hands out every slot that is not None; "
+    "ShareFile.get_leases yields every non-empty LEASE_SIZE record with one file access per iteration, so enumerate() in renew_lease "
+    "counts slots; MutableShareFile.cancel_lease blanks only the enumerated slot of a lease whose is_cancel_secret matched.  "
+    "Undecided: hash strength, clock values, byte-level file effects; whether MutableShareFile.add_lease may refuse for lack of "
+    "space when an empty slot could be reused (a resource question, not part of the stated property).")
 TECHNIQUE = "static analysis: CFG gate rules, keyword-argument sweep, constant folding of struct formats, schema tables"
 
 SF = "storage.immutable:ShareFile"
@@ -737,3 +747,281 @@ def run(ctx: Context):
         pk = [c for c in calls_in_func(al, "pack") if call_name(c) == "struct.pack" and len(c.args) == 2]
         okc = len(pk) == 1 and re.match(r"^\(1 \+ self\._read_num_leases\(\w+\)\)$", str(anm.poly(pk[0].args[1]))) is not None
         r.require(okc, al, al.loc(), "ShareFile.add_lease does not record num_leases + 1 as the new lease count")
+
+    # -- 7. a renewal needs no space: nothing may refuse or skip it before it was tried ------------------
+    with ctx.rule("C25.7", "R1/R3", "add_or_renew_lease reaches the renew attempt on every path (no exit or refusal, e.g. NoSpace, "
+                  "before it); the server offers every share to add_or_renew_lease and skips the renewal only under "
+                  "renew_leases=False / failed test vectors / no shares", expected=6) as r:
+        for (cq, kind) in CONTAINERS:
+            fn = idx.func(cq + ".add_or_renew_lease")
+            ps = first_positional_params(fn)
+            if len(ps) != 2:
+                raise AnchorVanished("%s signature changed: %s" % (short(fn), ps))
+            space = ps[0]
+            cfg = fn.cfg()
+            rn = [n for n in cfg.nodes if self_calls(n, "renew_lease")]
+            if len(rn) != 1:
+                raise AnchorVanished("%s: renew_lease call not found" % short(fn))
+            R = rn[0]
+            r.site(fn, self_calls(R, "renew_lease")[0], "renew attempt is unconditional")
+
+            def tr(n, lab, nxt, st, R=R, fn=fn, space=space):
+                if n is R:
+                    return None          # whatever happens from here on happens after the renew attempt
+                if n.kind == "test" and n.assume and nxt.kind in ("raise", "except") and space not in depends_on(fn, n.ast):
+                    return None          # argument precondition that has nothing to do with the space limit
+                return 0
+            vis, par = explore(cfg, 0, tr)
+            r.count(len(vis))
+            for (nid, st) in sorted(vis):
+                n = cfg.nodes[nid]
+                if n.kind not in ("exit", "raise"):
+                    continue
+                w = witness(cfg, par, (nid, st))
+                real = [m for (m, _l) in w.path if m.kind not in ("entry", "exit", "raise")]
+                last = real[-1] if real else None
+                what = "be refused (%s)" % src(fn, last.ast) if n.kind == "raise" and last is not None else "return"
+                r.violation(fn, fn.loc(last.ast if last is not None else None),
+                            "add_or_renew_lease can %s before the renew attempt was made: a lease whose renew secret already exists "
+                            "is not renewed although renewing needs no space (path: %s)" % (what, w.brief()), w)
+        # server: every share is offered to add_or_renew_lease ...
+        sv = idx.func("storage.server:StorageServer._add_or_renew_leases")
+        scfg = sv.cfg()
+        shares_p = first_positional_params(sv)[0]
+        heads = [n for n in scfg.nodes if n.kind == "iter" and attr_path(n.ast.iter) == shares_p]
+        if len(heads) != 1:
+            raise AnchorVanished("_add_or_renew_leases: loop over %s not found" % shares_p)
+        head = heads[0]
+        r.site(sv, head.ast, "every share")
+        offers = has_call("add_or_renew_lease")
+        for (t, w) in find_path_avoiding(scfg, lambda n: n.kind == "exit", gate_node=lambda m: m is head, skip_exc_edges=True):
+            r.violation(sv, sv.loc(), "_add_or_renew_leases can return without looking at the shares (path: %s)" % w.brief(), w)
+
+        def tr2(n, lab, nxt, st):
+            if lab == "exc" or (n is head and lab != "iter") or offers(n):
+                return None
+            return 1
+        vis, par = explore(scfg, 0, tr2, start=head)
+        for (nid, st) in sorted(vis):
+            if st == 1 and (scfg.nodes[nid] is head or scfg.nodes[nid].kind == "exit"):
+                w = witness(scfg, par, (nid, st))
+                r.violation(sv, sv.loc(head.ast), "_add_or_renew_leases can skip a share without calling its add_or_renew_lease: an "
+                            "existing lease on it is not renewed (path: %s)" % w.brief(), w)
+                break
+        # ... and the entry points skip _add_or_renew_leases only for the documented reasons
+        for (q, flags) in (("add_lease", False), ("allocate_buckets", True), ("slot_testv_and_readv_and_writev", True)):
+            g = idx.func("storage.server:StorageServer." + q)
+            gcfg = g.cfg()
+            gnm = FlowNorm(g)
+            cn = [n for n in gcfg.nodes if any(call_name(c) == "self._add_or_renew_leases" for c in node_calls(n))]
+            if len(cn) != 1:
+                raise AnchorVanished("%s: expected one self._add_or_renew_leases call, found %d" % (short(g), len(cn)))
+            C = cn[0]
+            call = [c for c in node_calls(C) if call_name(c) == "self._add_or_renew_leases"][0]
+            r.site(g, call, "renewal not skipped")
+            a0 = arg(call, 0)
+            if isinstance(a0, ast.Call) and call_tail(a0) in ("values", "items", "keys") and isinstance(a0.func, ast.Attribute):
+                a0 = a0.func.value
+            root = a0.id if isinstance(a0, ast.Name) else None
+
+            def may_skip(n, lab, g=g, gnm=gnm, flags=flags, root=root):
+                ft = gnm.edge_fact(n, lab)
+                if not ft or ft[0] != "false":
+                    return False
+                if flags and "renew_leases" in g.params and ft[1] == "renew_leases":
+                    return True
+                if flags and isinstance(ft[1], str) and ft[1].startswith("self._evaluate_test_vectors("):
+                    return True
+                return root is not None and ft[1] == gnm.norm(n, ast.Name(id=root, ctx=ast.Load()))
+
+            def tr3(n, lab, nxt, st, C=C, may_skip=may_skip):
+                if lab == "exc" or n is C or may_skip(n, lab):
+                    return None
+                return 0
+            vis, par = explore(gcfg, 0, tr3)
+            r.count(len(vis))
+            for (nid, st) in sorted(vis):
+                if gcfg.nodes[nid].kind == "exit":
+                    w = witness(gcfg, par, (nid, st))
+                    r.violation(g, g.loc(call), "%s can complete without putting the lease on the existing shares although nothing "
+                                "but renew_leases=False / failed test vectors / no shares may skip it (path: %s)" % (short(g), w.brief()), w)
+                    break
+
+    # -- 8. the index handed out with a lease is the slot the lease lives in ---------------------------------
+    with ctx.rule("C25.8", "R6/R1", "lease enumeration: MutableShareFile._enumerate_leases pairs every lease with the slot number it "
+                  "was read from and hands out every non-empty slot; ShareFile.get_leases yields one lease per record so that "
+                  "enumerate() counts slots; cancel_lease blanks only the matched lease's own slot", expected=4) as r:
+        en = idx.func(MSF + "._enumerate_leases")
+        fp = first_positional_params(en)[0]
+        cfg = en.cfg()
+        fnm = FlowNorm(en)
+        # what the function hands out: yielded 2-tuples, or 2-tuples appended to the list it returns
+        ret_lists, bad_returns = set(), []
+        for n in cfg.find(is_return):
+            v = n.ast.value
+            if v is None or (isinstance(v, ast.Constant) and v.value is None):
+                continue
+            while isinstance(v, ast.Call) and call_name(v) in ("iter", "list", "tuple") and len(v.args) == 1 and not v.keywords:
+                v = v.args[0]
+            v2 = v
+            if isinstance(v, ast.Name):
+                dn_, dv_ = def_of(fnm, n, v)
+                if isinstance(dv_, ast.Call):
+                    v2 = dv_
+            if isinstance(v2, ast.Call) and call_name(v2) == "enumerate":
+                r.violation(en, en.loc(n.ast), "_enumerate_leases returns %s: the number handed out with each lease is its position "
+                            "among the leases found, not the slot it was read from, so renew_lease/cancel_lease rewrite another "
+                            "lease's slot once an earlier slot is empty" % src(en, n.ast.value))
+                bad_returns.append(n)
+            elif isinstance(v, ast.Name):
+                ret_lists.add(v.id)
+            else:
+                raise AnalysisError("_enumerate_leases returns %s: cannot relate the indices to lease slots" % src(en, n.ast.value))
+        pairs = []
+        for n in cfg.nodes:
+            if n.kind != "stmt":
+                continue
+            for x in own_nodes(n.ast):
+                t = None
+                if isinstance(x, ast.Yield):
+                    t = x.value
+                elif isinstance(x, ast.Call) and call_tail(x) == "append" and isinstance(x.func, ast.Attribute) \
+                        and attr_path(x.func.value) in ret_lists and len(x.args) == 1:
+                    t = x.args[0]
+                else:
+                    continue
+                if isinstance(t, ast.Tuple) and len(t.elts) == 2:
+                    pairs.append((n, t.elts[0], t.elts[1], x))
+                else:
+                    r.violation(en, en.loc(x), "_enumerate_leases hands out %s, not a (slot number, lease) pair" % src(en, x))
+        if not pairs and not bad_returns:
+            raise AnchorVanished("_enumerate_leases: no (slot, lease) pair is yielded or collected")
+        readers = [n for n in cfg.nodes if self_calls(n, "_read_lease_record")]
+        if not readers and not bad_returns:
+            raise AnchorVanished("_enumerate_leases no longer calls _read_lease_record")
+        loopvars = set()
+        for (n, ie, le, x) in pairs:
+            r.site(en, x, "(slot, lease) pair")
+            dn, v = def_of(fnm, n, le)
+            if dn is None:
+                dn = n
+            ok = isinstance(v, ast.Call) and call_name(v) == "self._read_lease_record" and len(v.args) == 2 and not v.keywords \
+                and attr_path(v.args[0]) == fp
+            if ok:
+                slot = v.args[1]
+                ok = fnm.norm(n, ie) == fnm.norm(dn, slot) and all(
+                    fnm.rd.get(n.id, {}).get(nm.id) == fnm.rd.get(dn.id, {}).get(nm.id)
+                    for e_ in (ie, slot) for nm in own_nodes(e_) if isinstance(nm, ast.Name))
+                if isinstance(slot, ast.Name):
+                    loopvars.add((slot.id, tuple(sorted(fnm.rd.get(dn.id, {}).get(slot.id, ())))))
+            r.require(ok, en, en.loc(x), "_enumerate_leases hands out %s: the number that accompanies the lease is not the slot "
+                      "number the lease was read from (self._read_lease_record(%s, <slot>)); renew_lease/cancel_lease pass it to "
+                      "_write_lease_record and would overwrite another lease" % (src(en, x), fp))
+        # every slot is visited, and a non-empty one is always handed out
+        pair_nodes = [p_[0] for p_ in pairs]
+        for Rn in readers:
+            tgt = [t.id for t in getattr(Rn.ast, "targets", []) if isinstance(t, ast.Name)] if isinstance(Rn.ast, ast.Assign) else []
+            hd = [h for h in cfg.nodes if h.kind == "iter" and any((attr_path(h.ast.target), (h.id,)) == lv_ for lv_ in loopvars)]
+            if len(hd) != 1:
+                if not bad_returns:
+                    raise AnalysisError("_enumerate_leases: the slot loop was not found")
+                continue
+            H_ = hd[0]
+            r.site(en, H_.ast, "slot loop")
+            it = H_.ast.iter
+            if isinstance(it, ast.Call) and call_name(it) == "range" and len(it.args) == 1 and isinstance(it.args[0], ast.Name):
+                _d, dv_ = def_of(fnm, H_, it.args[0])
+                itn = "range(%s)" % (norm_plain(dv_) if dv_ is not None else "?")
+            else:
+                itn = fnm.norm(H_, it)
+            r.require(itn in ("range(self._get_num_lease_slots(%s))" % fp, "count()", "itertools.count()"), en, en.loc(H_.ast),
+                      "_enumerate_leases visits slots %s, not every slot 0 .. _get_num_lease_slots(%s)-1: leases in the other slots "
+                      "cannot be renewed and are added a second time" % (itn, fp))
+
+            def empty_edge(m, lab, tgt=tgt):
+                ft = fnm.edge_fact(m, lab)
+                if not ft or ft[0] != "is" or "None" not in ft[1:]:
+                    return False
+                other = ft[2] if ft[1] == "None" else ft[1]
+                return any(other == fnm.norm(m, ast.Name(id=t_, ctx=ast.Load())) for t_ in tgt)
+
+            def tr4(m, lab, nxt, st, Rn=Rn, H_=H_):
+                if lab == "exc" or (m is not Rn and m in pair_nodes) or empty_edge(m, lab) or (st == 1 and m is H_):
+                    return None
+                return 1
+            vis, par = explore(cfg, 0, tr4, start=Rn)
+            r.count(len(vis))
+            for (nid, st) in sorted(vis):
+                m = cfg.nodes[nid]
+                if st == 1 and (m is H_ or m.kind == "exit") and Rn not in pair_nodes:
+                    w = witness(cfg, par, (nid, st))
+                    r.violation(en, en.loc(Rn.ast), "_enumerate_leases can pass over a slot that holds a lease without handing it out: "
+                                "that lease cannot be renewed and is added a second time (path: %s)" % w.brief(), w)
+                    break
+        # immutable: renew_lease counts slots with enumerate(self.get_leases()) - get_leases must yield one lease per record
+        gl = idx.func(SF + ".get_leases")
+        gcfg = gl.cfg()
+        gnm = FlowNorm(gl)
+        yn = [n for n in gcfg.nodes if n.kind == "stmt" and any(isinstance(x, ast.Yield) for x in own_nodes(n.ast))]
+        rd_ = [n for n in gcfg.nodes if any(call_tail(c) == "read" and len(c.args) == 1 and norm_plain(c.args[0]) == "self.LEASE_SIZE"
+                                            for c in node_calls(n))]
+        if not yn or len(rd_) != 1:
+            raise AnchorVanished("ShareFile.get_leases: the record read / yield were not found")
+        Rn = rd_[0]
+        r.site(gl, Rn.ast, "one lease per record")
+        tgt = [t.id for t in Rn.ast.targets if isinstance(t, ast.Name)] if isinstance(Rn.ast, ast.Assign) else []
+        heads = [h for h in gcfg.nodes if h.kind == "iter"]
+        if len(heads) != 1:
+            raise AnchorVanished("ShareFile.get_leases: record loop not found")
+        H_ = heads[0]
+
+        def short_read(m, lab):
+            ft = gnm.edge_fact(m, lab)
+            return bool(ft) and ft[0] == "false" and any(ft[1] == gnm.norm(m, ast.Name(id=t_, ctx=ast.Load())) for t_ in tgt)
+
+        def tr5(m, lab, nxt, st):
+            if lab == "exc" or (m is not Rn and m in yn) or short_read(m, lab) or (st == 1 and m is H_):
+                return None
+            return 1
+        vis, par = explore(gcfg, 0, tr5, start=Rn)
+        r.count(len(vis))
+        for (nid, st) in sorted(vis):
+            m = gcfg.nodes[nid]
+            if st == 1 and (m is H_ or m.kind == "exit") and Rn not in yn:
+                w = witness(gcfg, par, (nid, st))
+                r.violation(gl, gl.loc(Rn.ast), "ShareFile.get_leases can pass over a lease record without yielding it: the positions "
+                            "renew_lease counts with enumerate() are then no longer slot numbers and the renewed record overwrites "
+                            "another lease (path: %s)" % w.brief(), w)
+                break
+        # nodes of the record loop: exactly one file access per iteration
+        def tr6(m, lab, nxt, st):
+            if lab == "exc" or (m is H_ and lab != "iter") or (st == 1 and m is H_):
+                return None
+            return 1
+        vis, par = explore(gcfg, 0, tr6, start=H_)
+        body = {gcfg.nodes[nid] for (nid, st) in vis if st == 1 and gcfg.nodes[nid] is not H_}
+        moves = [c for m in body for c in node_calls(m) if call_tail(c) in ("read", "seek", "readline", "readlines")]
+        r.require(len(moves) == 1, gl, gl.loc(H_.ast), "ShareFile.get_leases moves the file position %d times per record (%s): records "
+                  "are no longer read one per slot" % (len(moves), ", ".join(src(gl, c) for c in moves)))
+        # mutable cancel_lease: the blank record goes to the matched lease's own slot
+        cl = idx.func(MSF + ".cancel_lease")
+        ccfg = cl.cfg()
+        cnm = FlowNorm(cl)
+        csec = first_positional_params(cl)[0]
+        heads = [n for n in ccfg.nodes if n.kind == "iter" and isinstance(n.ast.target, ast.Tuple) and len(n.ast.target.elts) == 2
+                 and re.match(r"^self\._enumerate_leases\(\w+\)$", cnm.norm(n, n.ast.iter))]
+        wn = [n for n in ccfg.nodes if self_calls(n, "_write_lease_record")]
+        if len(heads) != 1 or not wn:
+            raise AnchorVanished("MutableShareFile.cancel_lease: loop over _enumerate_leases / _write_lease_record not found")
+        head = heads[0]
+        iv, lv = [attr_path(e) for e in head.ast.target.elts]
+        cmatch = ("truth", "%s.is_cancel_secret(%s)" % (lv, csec), None)
+        for W in wn:
+            wc = self_calls(W, "_write_lease_record")[0]
+            r.site(cl, wc, "blank record")
+            ok = len(wc.args) == 3 and attr_path(wc.args[1]) == iv and cnm.rd.get(W.id, {}).get(iv) == frozenset([head.id])
+            r.require(ok, cl, cl.loc(wc), "cancel_lease writes the blank record to slot %s, not the slot %s the matched lease was "
+                      "enumerated with" % (src(cl, wc.args[1] if len(wc.args) > 1 else wc), iv))
+            for (t, w) in find_path_avoiding(ccfg, lambda x: x is W, gate_edge=lambda m, lab: cnm.edge_fact(m, lab) == cmatch,
+                                             kill=lambda m: m is head):
+                r.violation(cl, cl.loc(wc), "cancel_lease overwrites a lease whose cancel secret was not matched (path: %s)" % w.brief(), w)
